@@ -15,8 +15,8 @@ import vlib
 
 MC_SCHED = {"quick": dict(Workers="{1, 2, 3}", MaxRows=4), "thorough": dict(Workers="{1, 2, 3}", MaxRows=5)}
 MC_HASH = {"quick": dict(Labels="{0, 1, 2}", MaxW=2), "thorough": dict(Labels="{0, 1, 2, 3}", MaxW=2)}
-GEN = {"quick": dict(MaxLatN=3, MaxX=1, MaxL=2, Seeds="{1, 2}", Tier='"quick"'),
-       "thorough": dict(MaxLatN=4, MaxX=2, MaxL=2, Seeds="{1, 2, 3}", Tier='"thorough"')}
+GEN = {"quick": dict(MaxLatN=3, MaxX=1, MaxL=2, Seeds="{0, 1, 2, 2147483647}", SeedsBig="{0, 2, 2147483647}", Tier='"quick"'),
+       "thorough": dict(MaxLatN=4, MaxX=2, MaxL=2, Seeds="{0, 1, 2, 3, 1000003, 2147483647}", SeedsBig="{0, 1, 2, 2147483647}", Tier='"thorough"')}
 SCHED_INVS = ["InvBarrier", "InvCells", "InvReduce", "InvCaller", "InvVal", "InvFine"]
 SCHED_ACTIONS = ["SBegin", "SWrite", "SBarrier", "SRedBegin", "SRedRow", "SRedEnd", "SSum", "SVal"]
 HASH_INVS = ["InvModal", "InvSum"]
@@ -61,6 +61,11 @@ def mk(kind, est, var, data, seed, k, plan, nproc, hook, hists=("fresh",)):
                                   "hists": list(hists)}}
 
 
+def rseed(r):
+    """random seed: the special values 0, 1, -1 (= u64::MAX / usize::MAX) with probability 1/4"""
+    return r.choice([0, 1, -1]) if r.random() < 0.25 else r.randint(2, 2 ** 31 - 2)
+
+
 def random_cases(ctx, count):
     """seeded random cases of the same schema: larger lattice data, other generated data, 3 processes"""
     r = ctx.rng
@@ -74,11 +79,11 @@ def random_cases(ctx, count):
                 hs.append(r.choice(HISTS[1:]))
             data = {"g": "blobs", "x": [], "y": [], "w": [], "n": r.choice([30, 64, 100, 257]), "d": r.randint(1, 4), "c": r.randint(2, 5),
                     "seed": r.randint(1, 10 ** 6)}
-            out.append(mk("builder", est, "", data, r.randint(1, 1000) if seeded else 7, 3, r.choice([[[1, 1], [3, 1]], [[2, 2]]]),
+            out.append(mk("builder", est, "", data, rseed(r) if seeded else 7, 3, r.choice([[[1, 1], [3, 1]], [[2, 2]]]),
                           2, False, hs))
             continue
         est, var, par, seeded = r.choice(CATALOGUE)
-        seed = r.randint(1, 1000) if seeded else 7
+        seed = rseed(r) if seeded else 7
         if r.random() < 0.5 and est not in SLOW:
             n = r.randint(4, 9)
             x = [[r.randint(0, 3), r.randint(0, 2)] for _ in range(n)]
